@@ -170,29 +170,27 @@ theorem gd_withM {s t : Sess} (h : GD pre s t) {a b : Mach} (hab : normA a = nor
   obtain ⟨_, a3, a4, a5, _⟩ := h
   exact ⟨hab, a3, a4, a5, hl⟩
 
+theorem gd_dropTop {s t : Sess} (h : GD pre s t) (rest : List Cell) :
+    GD pre { s with m := { s.m with ds := rest } } { t with m := { t.m with ds := rest } } := by
+  gd_cases h s t
+  simp [GD, normA, normB]
+
 theorem gd_emitResults : ∀ (f : Nat) (s t : Sess), GD pre s t → GRD pre (Sess.emitResults f s) (Sess.emitResults f t)
   | 0, s, t, h => h
   | f + 1, s, t, h => by
     obtain ⟨e1, e2, _⟩ := gd_same h
     simp only [Sess.emitResults]
-    rw [e1, e2]
-    split
-    · have hp := Ghost.popData_sim s.m t.m h.1
-      have hl := popData_limit s.m
-      revert hp hl
-      generalize s.m.popData = ra
-      generalize t.m.popData = rb
-      obtain ⟨oa, ma⟩ := ra
-      obtain ⟨ob, mb⟩ := rb
-      rintro ⟨g1, g2⟩ hl
-      simp only at g1 g2 hl
-      subst g1
-      have hl' : ma.insnLimit = none := by rw [hl]; exact h.2.2.2.2
-      cases oa with
-      | ok v => exact gd_emitResults f _ _ (gd_emit _ _ (gd_withM h g2 hl') _)
-      | err e => exact ⟨rfl, gd_withM h g2 hl'⟩
-      | panic p => exact ⟨rfl, gd_withM h g2 hl'⟩
-    · exact h
+    have hc : (s.m.ds.length > max s.m.ctx.dsOpen s.m.ctx.dsLen) ↔ (t.m.ds.length > max t.m.ctx.dsOpen t.m.ctx.dsLen) := by
+      rw [e1, e2]
+    by_cases hgt : s.m.ds.length > max s.m.ctx.dsOpen s.m.ctx.dsLen
+    · rw [if_pos hgt, if_pos (hc.mp hgt)]
+      cases hd : t.m.ds with
+      | nil => rw [e2, hd]; exact h
+      | cons v rest =>
+        rw [e2, hd]
+        exact gd_emitResults f _ _ (gd_emit _ _ (gd_dropTop h rest) _)
+    · rw [if_neg hgt, if_neg (fun x => hgt (hc.mpr x))]
+      exact h
 
 theorem gd_setNested {s t : Sess} (h : GD pre s t) (n : List Ctx) : GD pre { s with nested := n } { t with nested := n } := by
   obtain ⟨a1, a3, _, a5, a7⟩ := h
